@@ -202,7 +202,7 @@ WalStore(c) ==
     /\ UNCHANGED <<up, tabs, buffer, frozen, parts, nextPid, nextOff, colNames, ms, walAcct, walLock, fl, pendingFlush, rec, qs, dMeta, dPart, dTmp, histv>>
 WalTmpCreate(c) ==
     /\ FsSteps /\ ing[c].pc = "catalogued" /\ ing[c].wal = "assigned"
-    /\ dTmp' = dTmp \cup {[f |-> WalTmp(c), st |-> "empty"]}
+    /\ dTmp' = {x \in dTmp : ~(x.f.kind = "wal" /\ x.f.id = ing[c].walId)} \cup {[f |-> WalTmp(c), st |-> "empty"]}
     /\ ing' = [ing EXCEPT ![c].wal = "created"]
     /\ UNCHANGED <<up, tabs, buffer, frozen, parts, nextPid, nextOff, colNames, ms, walAcct, walLock, fl, pendingFlush, rec, qs, dMeta, dWal, dPart, histv>>
 WalTmpWrite(c) ==
@@ -391,7 +391,7 @@ MetaAdvance ==
     /\ FsSteps
     /\ fl.pc = "compacting" /\ \A pl \in fl.plans : pl.st = "done"
     /\ ms' = [ms EXCEPT !.earliest = fl.hi]
-    /\ dTmp' = dTmp \cup {[f |-> MetaTmp, st |-> "empty"]}
+    /\ dTmp' = {x \in dTmp : x.f.kind # "meta"} \cup {[f |-> MetaTmp, st |-> "empty"]}   \* File::create truncates a stale temp file
     /\ fl' = [fl EXCEPT !.pc = "metaCreated"]
     /\ UNCHANGED <<up, tabs, buffer, frozen, parts, nextPid, nextOff, colNames, walAcct, walLock, ing, pendingFlush, rec, qs, dMeta, dWal, dPart, histv>>
 MetaWrite ==
@@ -497,7 +497,8 @@ RecLoadMeta ==
                           !.todoWal = dWal \cup (IF "TmpInWalDirIsLoaded" \in Dev
                                                    THEN {[id |-> x.f.id, req |-> x.f.req] : x \in {y \in dTmp : y.f.kind = "wal" /\ y.st = "full"}}
                                                    ELSE {})]
-    /\ UNCHANGED <<up, tabs, buffer, frozen, parts, nextPid, nextOff, colNames, walAcct, walLock, ing, fl, pendingFlush, qs, disk, histv>>
+    /\ dTmp' = IF "TmpInWalDirIsLoaded" \in Dev THEN dTmp ELSE {x \in dTmp : x.f.kind # "wal"}
+    /\ UNCHANGED <<up, tabs, buffer, frozen, parts, nextPid, nextOff, colNames, walAcct, walLock, ing, fl, pendingFlush, qs, dMeta, dWal, dPart, histv>>
 \* ... every file in wal/: delete those below the cursor, register the others
 RecWal(w) ==
     /\ rec.pc = "wal" /\ w \in rec.todoWal
